@@ -151,7 +151,9 @@ struct Rendered {
 /// `err`: 0 = no error anywhere; 1 = a validation error in the lint's file; errors of the PARSING phases in the other
 /// file: 2 = a syntax error, 3 = definitions without a module, 4 = a preprocessor error; rule violations that the
 /// PARSER reports itself, in the lint's own file (the file is syntactically valid, its attributes apply): 5 = a tag
-/// out of range, 6 = a return tuple of one
+/// out of range, 6 = a return tuple of one; 7 = the other file re-declares everything the templates declare (same
+/// scoped names, members included) and then has a syntax error: discarding it must leave the first file's elements
+/// findable
 fn render(t: &Template, places: &[(Place, Arg)], err: u8) -> Rendered {
     let mut text = String::new();
     for (line, s) in &t.lines {
@@ -197,6 +199,10 @@ fn render(t: &Template, places: &[(Place, Arg)], err: u8) -> Rendered {
     }
     if err == 2 {
         other.push_str("struct T { x y }\n");
+    }
+    if err == 7 {
+        other = other.replace("\nmodule N\n", "\nmodule M\n");
+        other.push_str("struct S { s: int32 f: int32 }\ninterface I { other() op(p: int32 x: int32) -> (r: int32 q: int32 y: int32) }\nenum E { W V(f: int32) }\ncustom C\ntypealias A = int32\nstruct Sib {}\nstruct D {}\ninterface DI {}\ncustom CTRL\nstruct T { x y }\n");
     }
     let mut cli = vec![];
     for (p, a) in places {
@@ -319,7 +325,7 @@ fn run_config(t: &Template, places: &[(Place, Arg)], with_error: u8, swap: bool,
             let exp = places.iter().any(|(p, a)| matches!(p, Place::Cli | Place::OtherFile) && names(a, &d.code, t) && !(*a == Arg::ThatLowercase && *p != Place::Cli));
             let got = d.level == "allowed";
             // a file that does not parse has no attributes: its own file-level attribute is not judged then
-            let unjudged = matches!(with_error, 2 | 4) && places.iter().any(|(p, a)| *p == Place::OtherFile && names(a, &d.code, t)) && !places.iter().any(|(p, a)| *p == Place::Cli && names(a, &d.code, t));
+            let unjudged = matches!(with_error, 2 | 4 | 7) && places.iter().any(|(p, a)| *p == Place::OtherFile && names(a, &d.code, t)) && !places.iter().any(|(p, a)| *p == Place::Cli && names(a, &d.code, t));
             if exp != got && !unjudged {
                 let pl: Vec<String> = places.iter().map(|(p, a)| format!("{p:?}:{a:?}")).collect();
                 out.violate(
@@ -400,7 +406,7 @@ impl Family for Product {
         format!("single-placement/{} templates x 8 placements x 5 arguments x {{alone, next to a validation error, next to a file with a syntax error / without a module / with a preprocessor error, next to a rule violation reported by the parser itself (tag out of range, return tuple of one) in the same file}} x {{lint in the first file, in the second file}}", self.ts.len())
     }
     fn len(&self) -> u64 {
-        self.ts.len() as u64 * 8 * 5 * 7 * 2
+        self.ts.len() as u64 * 8 * 5 * 8 * 2
     }
     fn describe(&self, idx: u64) -> Value {
         let (t, p, a, e) = self.decode(idx % (self.len() / 2));
@@ -424,10 +430,10 @@ impl Family for Product {
 }
 impl Product {
     fn decode(&self, idx: u64) -> (&Template, Place, Arg, u8) {
-        let e = (idx % 7) as u8;
-        let a = ARGS[((idx / 7) % 5) as usize].clone();
-        let p = PLACES[((idx / 35) % 8) as usize];
-        let t = &self.ts[(idx / 280) as usize];
+        let e = (idx % 8) as u8;
+        let a = ARGS[((idx / 8) % 5) as usize].clone();
+        let p = PLACES[((idx / 40) % 8) as usize];
+        let t = &self.ts[(idx / 320) as usize];
         (t, p, a, e)
     }
 }
